@@ -120,8 +120,105 @@ def check_case(case, ctx):
     return {"nontrivial": n_mut >= 3 and len(kinds) >= 2 and n_struct >= 1, "classes": sorted(classes)}
 
 
+# ------------------------------------------------------------------------------------------
+# escape_ID: "Make all model component object IDs SBML compliant" with the replacement table of manipulation/modify.py
+# ------------------------------------------------------------------------------------------
+ESCAPE_TABLE = ((".", "_DOT_"), ("(", "_LPAREN_"), (")", "_RPAREN_"), ("-", "__"), ("[", "_LSQBKT"), ("]", "_RSQBKT"), (",", "_COMMA_"),
+                (":", "_COLON_"), (">", "_GT_"), ("<", "_LT"), ("/", "_FLASH"), ("\\", "_BSLASH"), ("+", "_PLUS_"), ("=", "_EQ_"),
+                (" ", "_SPACE_"), ("'", "_SQUOT_"), ('"', "_DQUOT_"))
+
+
+def _escaped(s):
+    for q in ("'", '"'):
+        if s.startswith(q) and s.endswith(q) and s.count(q) == 2:
+            s = s.strip(q)
+    for a, b in ESCAPE_TABLE:
+        s = s.replace(a, b)
+    return s
+
+
+def escape_strategy():
+    return st.fixed_dictionaries({
+        "spec": specs.model_spec(max_mets=4, max_rxns=5, max_genes=5, families=("sparse", "pathway"), ids="rich", groups=True),
+        "path": st.sampled_from(build.BUILD_PATHS),
+        "then": st.lists(st.sampled_from(["optimize", "remove_first_reaction", "knock_out_first_gene", "copy"]), max_size=2),
+    })
+
+
+def check_escape(case, ctx):
+    import copy as _copy
+
+    from cobra.manipulation import escape_ID
+
+    build.reset_globals()
+    spec = case["spec"]
+    kinds = {"r": [r["id"] for r in spec["rxns"]], "m": [m["id"] for m in spec["mets"]], "g": [g["id"] for g in spec["genes"]]}
+    maps = {k: {x: _escaped(x) for x in ids} for k, ids in kinds.items()}
+    for k, mp in maps.items():
+        if len(set(mp.values())) != len(mp) or any(not v for v in mp.values()):
+            return {"nontrivial": False, "classes": ["escape-collision-skip"]}  # two identifiers escape to one: undefined
+    # reaction ids name solver variables, "<id>_reverse_<hash>" included; metabolite ids name constraints
+    changed = sum(1 for mp in maps.values() for a, b in mp.items() if a != b)
+    model = build.build_model(spec, case["path"])
+    try:
+        escape_ID(model)
+    except Exception as e:  # noqa: BLE001
+        raise PropertyViolation("escape:raised", f"escape_ID raised {type(e).__name__}: {str(e)[:200]} for identifiers {kinds}")
+
+    def ren_tree(t):
+        if t is None or isinstance(t, str):
+            return maps["g"].get(t, t)
+        return [t[0], *[ren_tree(x) for x in t[1:]]]
+
+    want = _copy.deepcopy(spec)
+    want["id"] = _escaped(spec["id"]) if isinstance(spec.get("id"), str) else spec.get("id")
+    for r in want["rxns"]:
+        r["id"] = maps["r"][r["id"]]
+        r["mets"] = {maps["m"][m]: c for m, c in r["mets"].items()}
+        r["gpr"] = ren_tree(r["gpr"])
+    for m in want["mets"]:
+        m["id"] = maps["m"][m["id"]]
+    for g in want["genes"]:
+        g["id"] = maps["g"][g["id"]]
+    want["objective"] = {maps["r"][rid]: c for rid, c in spec["objective"].items()}
+    for grp in want.get("groups", []):
+        grp["members"] = [[k, maps[k][x]] for k, x in grp["members"]]
+    for c in want.get("cons", []):
+        c["coefs"] = {maps["r"][rid]: k for rid, k in c["coefs"].items()}
+    expected = build.build_model(want, "bulk")
+    a, b = observe.snapshot(expected), observe.snapshot(model)
+    for snap in (a, b):
+        snap["order"] = {k: sorted(v) for k, v in snap["order"].items()}
+    d = observe.diff(a, b, rel=1e-12, limit=5, ignore=("/model/n_contexts", "/interface", "/model/name"))
+    if d:
+        area = d[0].split(":")[0].strip("/").split("/")[0]
+        raise PropertyViolation(f"escape:content-{area}", f"after escape_ID the model is not the model with every identifier replaced by the documented "
+                                                          f"table (expected != model): {d[:4]}; identifiers {kinds}")
+    observe.audit_crossrefs(model, "escape")
+    observe.audit_solver(model, None, "escape")
+    classes = ["escape", f"escape-changed-{min(changed, 3)}"]
+    # the escaped model keeps working: later edits and a copy see the new identifiers
+    for step in case["then"]:
+        if step == "optimize":
+            model.slim_optimize()
+        elif step == "remove_first_reaction" and len(model.reactions):
+            model.remove_reactions([model.reactions[0].id])
+        elif step == "knock_out_first_gene" and len(model.genes):
+            model.genes.get_by_id(model.genes[0].id).knock_out()
+        elif step == "copy":
+            model = model.copy()
+        observe.audit_crossrefs(model, f"escape-then-{step}")
+        observe.audit_solver(model, None, f"escape-then-{step}")
+        classes.append(f"then-{step}")
+    return {"nontrivial": changed >= 2, "classes": classes}
+
+
 def hyp_phase(ctx):
     ctx.run_hypothesis(case_strategy(ctx.params["max_ops"]), check_case, "edits", ctx.params["max_examples"])
+
+
+def escape_phase(ctx):
+    ctx.run_hypothesis(escape_strategy(), check_escape, "escape", ctx.params["max_examples"])
 
 
 def enum_phase(ctx):
@@ -139,10 +236,12 @@ def enum_phase(ctx):
 def phases(tier):
     if tier == "quick":
         return [Phase("hyp", hyp_phase, shards=8, params={"max_examples": 900, "max_ops": 30, "budget_s": 75, "crash_journal": True}),
-                Phase("pairs", enum_phase, shards=8, params={"per_name": 2, "budget_s": 75, "crash_journal": True})]
+                Phase("pairs", enum_phase, shards=8, params={"per_name": 2, "budget_s": 75, "crash_journal": True}),
+                Phase("escape", escape_phase, shards=2, params={"max_examples": 250, "budget_s": 40, "crash_journal": True})]
     return [Phase("hyp", hyp_phase, shards=16, params={"max_examples": 2500, "max_ops": 50, "budget_s": 400, "crash_journal": True}),
             Phase("pairs", enum_phase, shards=16, params={"per_name": 3, "budget_s": 300, "crash_journal": True}),
-            Phase("triples", enum_phase, shards=16, params={"per_name": 1, "length": 3, "budget_s": 300, "crash_journal": True})]
+            Phase("triples", enum_phase, shards=16, params={"per_name": 1, "length": 3, "budget_s": 300, "crash_journal": True}),
+            Phase("escape", escape_phase, shards=16, params={"max_examples": 1500, "budget_s": 200, "crash_journal": True})]
 
 
-CHECKS = {"edits": check_case, "history": check_case}
+CHECKS = {"edits": check_case, "history": check_case, "escape": check_escape}
